@@ -69,7 +69,8 @@ def judge(P, sem, run):
         cls = "must-reject"
         if kind == "ok":
             out.append(("answered %s although in %d possible world(s) a query/evidence atom is undefined in the well-founded model" % (val, sem["undef_roots"]),
-                        {"kind": "answered-must-reject", "poscycle_in_negcycle_scc": spine.poscycle_in_negcycle_scc(P)}))
+                        {"kind": "answered-must-reject", "poscycle_in_negcycle_scc": spine.poscycle_in_negcycle_scc(P),
+                         "poscycle_clause_before_negedge": spine.negedge_after_poscycle_clause(P)}))
         elif not is_grounding_error(name) and name != "InconsistentEvidenceError":
             out.append(("raised %s at %s instead of a grounding error" % (name, val[2]),
                         {"kind": "exception", "exc": name, "site": val[2], "class": cls}))
